@@ -63,10 +63,7 @@ func init() {
 	reg(vfrtPath+".Symbolic", func(in *Exec, _ *frame, a []value) value { return in.tb.True })
 	reg(vfrtPath+".Thorough", func(in *Exec, _ *frame, a []value) value { return in.tb.Bool(in.W.X.Thorough) })
 	reg(vfrtPath+".GoroutineID", func(in *Exec, _ *frame, a []value) value {
-		if len(in.gids) == 0 {
-			return in.intConst(0)
-		}
-		return in.intConst(int64(in.gids[len(in.gids)-1]))
+		return in.intConst(int64(in.curGID()))
 	})
 	reg(vfrtPath+".Byte", func(in *Exec, _ *frame, a []value) value { return in.draw(conc(in, a[0], "label"), "byte", 8) })
 	reg(vfrtPath+".Bool", func(in *Exec, _ *frame, a []value) value { return in.draw(conc(in, a[0], "label"), "bool", 0) })
@@ -250,8 +247,7 @@ func init() {
 
 	// ---------------- sync ----------------
 	nop := func(in *Exec, _ *frame, a []value) value { return nil }
-	for _, n := range []string{"(*sync.Mutex).Lock", "(*sync.Mutex).Unlock", "(*sync.RWMutex).Lock", "(*sync.RWMutex).Unlock",
-		"(*sync.RWMutex).RLock", "(*sync.RWMutex).RUnlock", "(*sync.WaitGroup).Add", "(*sync.WaitGroup).Done", "(*sync.WaitGroup).Wait",
+	for _, n := range []string{
 		"runtime.KeepAlive", "runtime.SetFinalizer", "runtime.GC", "runtime.Gosched", "internal/race.Acquire", "internal/race.Release",
 		"internal/race.ReleaseMerge", "internal/race.Disable", "internal/race.Enable", "internal/race.Read", "internal/race.Write",
 		"internal/race.ReadRange", "internal/race.WriteRange", "(*sync.Cond).Broadcast", "(*sync.Cond).Signal",
@@ -259,7 +255,7 @@ func init() {
 		"fmt.Printf", "fmt.Println", "fmt.Print", "os.(*File).Write", "(*os.File).Write"} {
 		reg(n, nop)
 	}
-	reg("(*sync.Mutex).TryLock", func(in *Exec, _ *frame, a []value) value { return in.tb.True })
+	regSync()
 	reg("(*sync.Pool).Get", func(in *Exec, fr *frame, a []value) value {
 		p := (*a[0].(*value)).(structure)
 		// last field: New func() any
